@@ -1,5 +1,6 @@
 (* Properties_C14.v — C14: HEAD responses carry the GET headers and never a body. *)
 From Via Require Import M_Char M_Encode M_Parse M_Receive M_Server P_Server.
+From Via Require Import M_Imp M_Query Gen_Parse P_Query.
 Local Open Scope N_scope.
 
 Theorem C14_head_same_header_no_body : forall o w c rp hdr body,
@@ -16,3 +17,12 @@ Theorem C14_head_same_header_no_body : forall o w c rp hdr body,
 Proof. exact head_response_same_header. Qed.
 
 Print Assumptions C14_head_same_header_no_body.
+
+(* ---- the tie to the source, as a theorem ----
+   The queries on a received request are translated from clang's AST on every run (translate/parse.py -> Gen_Parse.v,
+   terms of M_Query.v: functions of the request line as M_Imp expressions over its members; queries of the header block
+   as "which header, which token, what a hit means", their common frame - look up, false if empty, lower-case, search -
+   checked by the translator).  The model's decision is, for EVERY received request, the translated one. *)
+Theorem C14_is_head_is_the_source : forall q, rq_ev q rq_is_head_src = rq_is_head q.
+Proof. exact rq_is_head_is_the_source. Qed.
+Print Assumptions C14_is_head_is_the_source.
